@@ -17,6 +17,7 @@ import (
 	"pgregory.net/rapid"
 	"verifharness/catalog"
 	"verifharness/gen"
+	"verifharness/hutil"
 	"verifharness/pbt"
 	"verifharness/prod"
 	"verifharness/sim"
@@ -115,6 +116,12 @@ func genCase(t *rapid.T) Case {
 		}
 		// now and then the whole round is the scenario "a replica that holds items goes down, falls far behind, and the
 		// partition is emptied and snapshotted meanwhile": it can only catch up through the snapshot of an empty index
+		// one case in twenty starts with an item whose metadata alone is 1.2 MB, then a snapshot: from then on every
+		// snapshot of that partition is larger than a mebibyte
+		if i == 0 && rapid.IntRange(0, 19).Draw(t, "fat") == 0 {
+			fatId := rapid.IntRange(0, 7).Draw(t, "fatid")
+			r.Ops = append([]WOp{{K: WInsert, Id: fatId, Meta: gen.Fat, Node: 0}, {K: WSnapshot}}, r.Ops...)
+		}
 		emptied := c.Nodes == 3 && rapid.IntRange(0, 3).Draw(t, "emptied") == 0
 		armAt := -1
 		if emptied {
@@ -224,7 +231,15 @@ const slot = 0
 func check(c Case, o *pbt.Obs) *pbt.Failure {
 	trapOnce.Do(sim.InstallFatalTrap)
 	sim.TakeUnexpectedFatal()
-	cl := prod.New(c.Nodes)
+	open := hutil.MemDB
+	for _, r := range c.Rounds {
+		for _, op := range r.Ops {
+			if op.Meta == gen.Fat {
+				open = hutil.MemDBBig // a 1.2 MB entry does not fit a write of the small-table stores used otherwise
+			}
+		}
+	}
+	cl := prod.NewOn(c.Nodes, open)
 	defer cl.Close()
 	var all []uint64
 	for i := 0; i < c.Nodes; i++ {
@@ -298,6 +313,9 @@ func check(c Case, o *pbt.Obs) *pbt.Failure {
 			ds := cl.Dataset(entry, slot)
 			if ds == nil {
 				break
+			}
+			if op.Meta == gen.Fat {
+				o.Label("item-with-1.2MB-metadata")
 			}
 			if op.K == WSnapshot {
 				for i := 0; i < c.Nodes; i++ {
